@@ -34,16 +34,13 @@ Print Assumptions C16_div.
 
 (* X // Y.  The table floors where ISO truncates (Findings.v: C16_intdiv_refuted).  The
    guard below -- zero divisor, exact division, or operands of the same sign -- excludes
-   exactly the defect class: C16_intdiv_guard_exact shows the operator is wrong everywhere
-   outside it, and by exactly one. *)
+   exactly the defect class: Findings.v C16_intdiv_guard_exact shows the operator is wrong
+   everywhere outside it, and by exactly one.  Full statement (holds once the operator
+   truncates, e.g. with fixes/C16-intdiv.patch; same proof script):
+     forall a b, app2 "//" a b = iso_intdiv a b. *)
 Theorem C16_intdiv_guarded : forall a b, intdiv_guard a b = true -> app2 "//" a b = iso_intdiv a b.
 Proof. exact intdiv_ok_guarded. Qed.
 Print Assumptions C16_intdiv_guarded.
-Theorem C16_intdiv_guard_exact :
-  forall a b, intdiv_guard a b = false -> app2 "//" a b <> iso_intdiv a b /\ app2 "//" a b = IVal (Z.quot a b - 1).
-Proof. intros a b G. split; [exact (intdiv_differs_unguarded a b G) | exact (intdiv_floor_minus_one a b G)]. Qed.
-Print Assumptions C16_intdiv_guard_exact.
-
 Theorem C16_min : forall a b, app2 "min" a b = iso_min a b.
 Proof. exact min_ok. Qed.
 Print Assumptions C16_min.
